@@ -428,8 +428,9 @@ namespace via
     /// CRLF pair, which could cause HTTP message spliting.
     inline bool are_headers_split(std::string_view headers) noexcept
     {
-      char prev('0');
-      char pprev('0');
+      // The headers follow the CRLF of the start line
+      char prev('\n');
+      char pprev('\r');
 
       if (!headers.empty())
       {
